@@ -53,7 +53,10 @@ package prunner
 // waiting job whose timer is gone (fired) has waited its delay; a started job was started after its delay
 //@ pure delayKept(j *PipelineJob) bool = (j.startTimer != nil ==> $armedAt[j.startTimer] >= j.Created && $armedDelay[j.startTimer] == j.StartDelay) && (!j.Canceled && j.StartDelay > 0 && j.startTimer == nil && j.Start == nil ==> j.Created + j.StartDelay <= $clock) && (j.Start != nil && j.StartDelay > 0 ==> j.Created + j.StartDelay <= *j.Start)
 //@ pure RItime(r *PipelineRunner) bool = forall id uuid.UUID :: (id in r.jobsByID) && $accepted[r.jobsByID[id]] ==> timesOrdered(r.jobsByID[id])
-//@ pure RI(r *PipelineRunner) bool = RIbase(r) && RIids(r) && RIwf(r) && RIjobs(r) && RIwl(r) && RIsep(r) && RIreg(r) && RIdist(r) && RItime(r)
+// once shutdown has begun no job waits on any wait list (Shutdown purges them, ScheduleAsync refuses)
+//@ pure RIgate(r *PipelineRunner) bool = r.isShuttingDown ==> forall p string :: len(r.waitListByPipeline[p]) == 0
+//@ pure RIx(r *PipelineRunner) bool = RIbase(r) && RIids(r) && RIwf(r) && RIjobs(r) && RIwl(r) && RIsep(r) && RIreg(r) && RIdist(r) && RItime(r)
+//@ pure RI(r *PipelineRunner) bool = RIx(r) && RIgate(r)
 
 // ---------------------------------------------------------------------------------------
 //@ func (*PipelineJob).isRunning
@@ -236,10 +239,12 @@ package prunner
 //@   ensures  [ri] RI(r)
 //@   ensures  [C03.progress] progress(r, pipeline)
 //@   ensures  [C06.suffix] suffixOf(r.waitListByPipeline[pipeline], old(r.waitListByPipeline[pipeline]))
+//@   ensures  [C11.emptyNoStart] old(len(r.waitListByPipeline[pipeline])) == 0 ==> same(PipelineJob.Start) && same(PipelineJob.Canceled)
 //@   ensures  [persist] old($persist) ==> $persist
 //@   ensures  [T] Tjobs() && Tcanceled()
 //@   ensures  [defs] r.defs == old(r.defs)
 //@   modifies PipelineJob.Start, PipelineJob.sched, PipelineJob.taskRunner, PipelineJob.LastError, PipelineJob.Canceled, taskctl.Scheduler.onStageChange, map(map[string][]*PipelineJob)@[r.waitListByPipeline], mem(time.Time), $persist, $clock, $wgTokens
+//@   loop 1 invariant [C11.emptyNoStart] old(len(r.waitListByPipeline[pipeline])) == 0 ==> same(PipelineJob.Start) && same(PipelineJob.Canceled) && len(waitList) == 0
 //@   loop 1 invariant [ri] RI(r) && r.defs == old(r.defs) && r.waitListByPipeline == old(r.waitListByPipeline)
 //@   loop 1 invariant [current] waitList == r.waitListByPipeline[pipeline]
 //@   loop 1 invariant [suffix] suffixOf(waitList, old(r.waitListByPipeline[pipeline]))
@@ -253,6 +258,8 @@ package prunner
 // across such a gap is only what every critical section guarantees (checked as <fn>/guarantee[...]).
 //@ rely [T] Tjobs()
 //@ rely [gate] old(r.isShuttingDown) ==> r.isShuttingDown
+//@ rely [noStart] old(r.isShuttingDown) ==> forall j *PipelineJob :: wasAllocated(j) && !old(jobRunning(j)) ==> !jobRunning(j)
+//@ rely [noNew] old(r.isShuttingDown) ==> forall id uuid.UUID :: (id in r.jobsByID) ==> old(id in r.jobsByID) && r.jobsByID[id] == old(r.jobsByID[id])
 
 //@ ghost $cancelSpawned array Int
 //@ pure tasksCanceled(j *PipelineJob) bool = forall i :: 0 <= i && i < len(j.Tasks) ==> j.Tasks[i].Canceled
@@ -270,6 +277,7 @@ package prunner
 //@   ensures  [C04.running] (id in old(r.jobsByID)) && old(jobRunning(r.jobsByID[id])) ==> res == nil && same(PipelineJob.Canceled) && same(PipelineJob.Start) && same(PipelineJob.Completed) && same("map(map[string][]*PipelineJob)") && (old(r.jobsByID[id].sched) != nil ==> $cancelSpawned[old(r.jobsByID[id])] == old($cancelSpawned[r.jobsByID[id]]) + 1)
 //@   ensures  [C03.progress] (id in old(r.jobsByID)) && old(jobWaiting(r.jobsByID[id])) && !old(r.jobsByID[id].Completed) ==> progress(r, old(r.jobsByID[id]).Pipeline)
 //@   ensures  [T] Tjobs() && TtaskCanceled()
+//@   ensures  [C11.noStart] old(r.isShuttingDown) ==> same(PipelineJob.Start)
 //@   ensures  [defs] r.defs == old(r.defs) && same(PipelineJob.Completed) && same("map(map[uuid.UUID]*PipelineJob)")
 //@   modifies PipelineJob.Start, PipelineJob.sched, PipelineJob.taskRunner, PipelineJob.LastError, PipelineJob.Canceled, PipelineJob.startTimer, jobTask.Canceled, taskctl.Scheduler.onStageChange, map(map[string][]*PipelineJob)@[r.waitListByPipeline], mem(time.Time), mem(*PipelineJob), $persist, $clock, $stopped, $cancelSpawned, $wgTokens
 //@   at go (*PipelineRunner).cancelJobInternal$1#1: ghost $cancelSpawned[job] := $cancelSpawned[job] + 1
@@ -497,6 +505,8 @@ package prunner
 //@   at after (*PipelineRunner).determineIfJobShouldBeRemoved#1: assert [C12.uniqueId] forall k :: 0 <= k && k < len(sortedJobsInPipeline) && k != i && (sortedJobsInPipeline[k].ID in r.jobsByID) ==> sortedJobsInPipeline[k].ID != job.ID
 //@   at call Remove#1: assert [C12.whyPrev] forall k :: 0 <= k && k < i && jobFinished(sortedJobsInPipeline[k]) && defined(r, sortedJobsInPipeline[k].Pipeline) && $passDom[sortedJobsInPipeline[k].ID] && !(sortedJobsInPipeline[k].ID in r.jobsByID) ==> (retCount(r, sortedJobsInPipeline[k]) > 0 && k >= retCount(r, sortedJobsInPipeline[k])) || (retPeriod(r, sortedJobsInPipeline[k]) > 0 && $clock - sortedJobsInPipeline[k].Created > retPeriod(r, sortedJobsInPipeline[k]))
 //@   at call Remove#1: assert [C12.whyNow] jobFinished(job) && defined(r, job.Pipeline) && $passDom[job.ID] ==> (retCount(r, job) > 0 && i >= retCount(r, job)) || (retPeriod(r, job) > 0 && $clock - job.Created > retPeriod(r, job))
+//@   loop 1 invariant [C11.noNew] forall id uuid.UUID :: (id in r.jobsByID) ==> old(id in r.jobsByID) && r.jobsByID[id] == old(r.jobsByID[id])
+//@   loop 2 invariant [C11.noNew] forall id uuid.UUID :: (id in r.jobsByID) ==> old(id in r.jobsByID) && r.jobsByID[id] == old(r.jobsByID[id])
 //@   loop 1 invariant [clock] $clock >= old($clock)
 //@   loop 2 invariant [distinct] distinctElems(sortedJobsInPipeline)
 //@   loop 2 invariant [sorted] all(sortedJobsInPipeline, nonNil) && all(sortedJobsInPipeline, registered, r) && fresh(base(sortedJobsInPipeline)) && 0 <= $i + 1 && $i + 1 <= len(sortedJobsInPipeline)
@@ -524,15 +534,17 @@ package prunner
 //@   lockmode none
 //@   ensures  [T] Tjobs()
 //@   ensures  [C11.gate] r.isShuttingDown
-//@   loop 1 invariant [ri] RI(r) && r.isShuttingDown && Tjobs() && sinceLock(Tjobs()) && $held == 2
+//@   loop 1 invariant [ri] RIx(r) && r.isShuttingDown && Tjobs() && sinceLock(Tjobs()) && sinceLock(same(PipelineJob.Start)) && $held == 2
 //@   loop 1 invariant [purged] forall p string :: $seen[p] ==> !(p in r.waitListByPipeline)
-//@   loop 2 invariant [ri] RIbase(r) && RIids(r) && RIwf(r) && RIjobs(r) && RIsep(r) && RIreg(r) && RIdist(r) && r.isShuttingDown && Tjobs() && sinceLock(Tjobs()) && $held == 2
+//@   loop 2 invariant [ri] RIbase(r) && RIids(r) && RIwf(r) && RIjobs(r) && RIsep(r) && RIreg(r) && RIdist(r) && r.isShuttingDown && Tjobs() && sinceLock(Tjobs()) && sinceLock(same(PipelineJob.Start)) && $held == 2
 //@   loop 2 invariant [others] forall p string :: p != pipelineName ==> all(r.waitListByPipeline[p], wlEntry, p) && distinctElems(r.waitListByPipeline[p])
 //@   loop 2 invariant [mine] jobs == r.waitListByPipeline[pipelineName] && 0 <= $i + 1 && $i + 1 <= len(jobs) && distinctElems(jobs) && all(jobs, wlEntryC, pipelineName) && all(jobs[:$i+1], canceledEntry)
 //@   loop 2 invariant [purged] forall p string :: $seen1[p] && p != pipelineName ==> !(p in r.waitListByPipeline)
 //@   loop 3 invariant [ri] r.isShuttingDown && Tjobs() && $held == 0
+//@   loop 4 invariant [C11.observedIdle] forall p string :: $seen[p] ==> hasRunningPipelines || !pipeRunning(r, p)
+//@   at call RUnlock#1: assert [C11.observedIdle] !hasRunningPipelines ==> forall p string :: !pipeRunning(r, p)
 //@   loop 4 invariant [ri] RI(r) && r.isShuttingDown && Tjobs() && $held == 1
-//@   loop 5 invariant [ri] RI(r) && r.isShuttingDown && Tjobs() && sinceLock(Tjobs()) && $held == 2
+//@   loop 5 invariant [ri] RI(r) && r.isShuttingDown && Tjobs() && sinceLock(Tjobs()) && sinceLock(same(PipelineJob.Start)) && $held == 2
 //@ pure wlEntryC(j *PipelineJob, p string) bool = j != nil && allocated(j) && j.Pipeline == p && j.Start == nil && !j.Completed
 
 //@ func (*PipelineRunner).Shutdown$1
@@ -613,7 +625,7 @@ package prunner
 //@ property C06: prunner.*/ensures[C06.*] prunner.(*PipelineRunner).ScheduleAsync/ensures[C05.queue] prunner.(*PipelineRunner).ScheduleAsync/ensures[C05.replace] prunner.(*PipelineRunner).ScheduleAsync/ensures[C05.start] prunner.(*PipelineRunner).startJobsOnWaitList/loop* prunner.*/call-pre[(*PipelineRunner).startJob.offList]* prunner.removeJobFromWaitList/* prunner.*/monitor[RI] prunner.*/ensures[C12.waitLists] prunner.(*PipelineRunner).startJobsOnWaitList/* prunner.(*PipelineRunner).startJob/* prunner.(*PipelineRunner).cancelJobInternal/* prunner.removeJobFromWaitList/* prunner.*/ensures[T] prunner.*/ensures[ri] prunner.*/call-pre[*.ri]* prunner.*/ensures[C12.keepLive]
 //@ property C07: prunner.*/ensures[C07.*] prunner.*/call-pre[(*PipelineRunner).startJob.timerDone]* prunner.*/ensures[C03.timerTruth] prunner.*/ensures[C03.progress] prunner.(*PipelineRunner).ScheduleAsync/ensures[C05.replace] prunner.(*PipelineRunner).startJob/ensures[skipCanceled] prunner.(*PipelineRunner).resolveDequeueJobAction/ensures* prunner/writers[PipelineJob.startTimer] prunner/writers[PipelineJob.StartDelay] prunner.*/monitor[RI] prunner.*/ensures[ri] prunner.*/call-pre[*.ri]* prunner/writers[PipelineJob.Created] prunner/writers[PipelineJob.Start]
 //@ property C10: prunner.*/ensures[C10.*] prunner.(*PipelineRunner).initialLoadFromStore/loop* prunner.buildJobFromPersistedJob/* helper.*/ensures* store/globalinit[json] store.(*JsonDataStore).Load/ensures[C09.load] prunner.*/assert[C10.*] prunner.(*PipelineJob).isRunning/ensures* prunner.(*PipelineRunner).SaveToStore/loop3/* prunner.(*PipelineRunner).SaveToStore/loop4/* lemma/cntZero* prunner.(*PipelineRunner).initialLoadFromStore/ensures* store.(*JsonDataStore).Save/*
-//@ property C11: prunner.*/ensures[C11.*] prunner.*/assert[C11.*] prunner.(*PipelineRunner).Shutdown/loop* prunner.(*PipelineRunner).Shutdown/monitor[RI] prunner.(*PipelineRunner).Shutdown/ensures[T] prunner.(*PipelineRunner).Shutdown$1/* prunner/writers[PipelineRunner.isShuttingDown] prunner.*/guarantee[gate] prunner.(*PipelineRunner).Shutdown/guarantee[T] prunner/interference[captured] prunner.(*PipelineRunner).Shutdown$1/frame*
+//@ property C11: prunner.*/ensures[C11.*] prunner.*/assert[C11.*] prunner.(*PipelineRunner).Shutdown/loop* prunner.(*PipelineRunner).Shutdown/monitor[RI] prunner.(*PipelineRunner).Shutdown/ensures[T] prunner.(*PipelineRunner).Shutdown$1/* prunner/writers[PipelineRunner.isShuttingDown] prunner.*/guarantee[gate] prunner.(*PipelineRunner).Shutdown/guarantee[T] prunner/interference[captured] prunner.(*PipelineRunner).Shutdown$1/frame* prunner.*/guarantee[noStart] prunner.*/guarantee[noNew] prunner.*/monitor[RI] prunner.*/ensures[ri] prunner.*/call-pre[*.ri]* prunner.(*PipelineRunner).startJobsOnWaitList/*[C11.*] prunner.(*PipelineRunner).SaveToStore/loop*[C11.noNew]
 //@ property C12: prunner.*/ensures[C12.*] prunner.(*PipelineRunner).SaveToStore/* prunner.removeJobFromList/* prunner.byCreationTimeDesc/ensures* prunner.*/assert[dist*] prunner.*/monitor[RI] prunner.(*PipelineRunner).determineIfJobShouldBeRemoved/* prunner.*/assert[wl*] prunner.(*PipelineRunner).initialLoadFromStore/*[C10.noLoss]
 //@ property C13: prunner.*/lock[read] prunner.*/lock[write] prunner.*/lockproto[*] prunner.*/call-pre[*.lockmode]* prunner.*/call-pre[*.guard]* prunner.*/call-pre[*.empty]* prunner.*/ensures[unpublished] prunner/interference[captured] prunner.*/guarantee[*]
 //@ property C15: prunner.*/ensures[C15.*] prunner.(*PipelineRunner).resolveScheduleAction/ensures[range] prunner.(*PipelineRunner).isRunning/loop* prunner.(*PipelineRunner).ReadJob/* prunner.(*PipelineRunner).IterateJobs/ensures* prunner.(*PipelineRunner).ListPipelines/ensures* prunner.(*PipelineRunner).ListPipelines/loop* prunner.(*PipelineJob).isRunning/ensures* prunner.*/monitor[RI] prunner.*/ensures[ri] prunner.*/call-pre[*.ri]* prunner/writers[PipelineJob.End] prunner/writers[PipelineJob.Created] prunner/writers[PipelineJob.Start]
